@@ -50,6 +50,23 @@ func reverseKids(part string) (string, bool) {
 func checkClasses(parts []string) (sig, what string) {
 	tt := classText(parts)
 	T := buildText(tt)
+	// plain nodes (user-defined tags, NOTE) are equal only if tag, value and pointer agree as written
+	kids := T.Nodes()
+	for i := range parts {
+		for j := range parts {
+			if i == j || parts[i] == parts[j] || strings.Contains(parts[i], "\n") || strings.Contains(parts[j], "\n") {
+				continue
+			}
+			plain := func(p string) bool {
+				return strings.HasPrefix(p, "1 _") && !strings.HasPrefix(p, "1 _UID") || strings.HasPrefix(p, "1 NOTE")
+			}
+			if plain(parts[i]) && plain(parts[j]) && i < len(kids) && j < len(kids) {
+				if eq, _ := deq(kids[i], kids[j]); eq || kids[i].Equals(kids[j]) {
+					return "plain-nodes-that-differ-are-equal", fmt.Sprintf("%q and %q are reported equal", parts[i], parts[j])
+				}
+			}
+		}
+	}
 	C := gedcom.DeepCopy(T, gedcom.NewDocument())
 	if tc, _ := deq(T, C); !tc {
 		return "copy-not-deep-equal:DeepCopy:classes", "a deep copy is not DeepEqual to its source:\n" + tt
